@@ -35,12 +35,14 @@ type Part struct {
 
 // Prop describes one property's check.
 type Prop struct {
-	ID            string
-	Level         string
-	Rule          string
-	Quick         []Part
-	Thorough      []Part
-	MinNonTrivial int // floor for distinct_nontrivial in quick tier (machinery sanity)
+	ID              string
+	Level           string
+	Rule            string
+	Quick           []Part
+	Thorough        []Part
+	MinNonTrivial   int    // floor for distinct_nontrivial in quick tier (machinery sanity)
+	RequirePrefix   string // counters with this prefix ...
+	RequireDistinct int    // ... must show at least this many distinct keys (every table row exercised)
 }
 
 // Props is filled in by props.go.
